@@ -4,14 +4,17 @@
      merge ord / merge_ext_api      = integrate.MergeExtendedSpatialIds, `ord` = Go's map iteration order, any permutation (Merge.v, C04)
      x_f, y_f, f_f, point_eid, points_api = shape.GetExtendedSpatialIdsOnPoints, bit-exact binary64; math.Tan/Cos/Log are the
                                       parameters m_tan m_cos m_log — ANY functions (PointF.v, C01)
-     overlap_check_api              = detector.CheckExtendedSpatialIdsOverlap as written (Consistency.v)
+     overlap_check_api              = detector.CheckExtendedSpatialIdsOverlap, step by step; equal to the code on valid IDs (differences outside
+                                      them are listed in Consistency.v's header and meta/C09.json)
    Vocabulary: `valid` = zooms 0..35, 0 <= x,y < 2^h, -2^v <= f < 2^v; `wf` = zooms and x, y non-negative (every valid ID);
    `anc d n` = floor (n / 2^d); `overlaps i j` = on each axis the coarser index is the floor-ancestor of the finer (Voxel.overlaps_iff_meet:
-   exactly when the two regions share a point); `fval`/`ffin` = real value / finiteness of a binary64; `alt_underflow alt v` (FF.v, D12) =
-   alt <> 0 and |alt| < 2^(-997-v): the quotient alt / 2^(25-v) is a denormal number; `merc_m lat` = the float 1 - Log(Tan r + 1/Cos r)/Pi. *)
-From Coq Require Import ZArith Reals String List Lia Permutation Floats.
+   exactly when the two regions share a point); `fval`/`ffin` = real value / finiteness of a binary64; `rnd` = rounding to nearest-even binary64;
+   `alt_vanishes alt v` (Consistency.v; the defect D12) = alt < 0 and the quotient alt * 2^(v-25) rounds to (minus) zero — a sub-class of C01's
+   `alt_underflow alt v` (alt <> 0 and |alt| < 2^(-997-v)); `merc_m lat` = the float 1 - Log(Tan r + 1/Cos r)/Pi.
+   ALL theorems below are about the executable MODELS (tied to the Go code by differential execution only), not about the Go code itself. *)
+From Coq Require Import ZArith Reals String List Bool Lia Permutation Floats.
 From Flocq Require Import Core.
-From SID Require Import Base Str Ids Voxel ZoomCore ChangeZoom Merge MergeCheck MergeRegion F64 ExactRef PointF PtBridge FF XF YF Consistency.
+From SID Require Import Base Str Ids Wire Voxel ZoomCore ChangeZoom Merge MergeCheck MergeRegion F64 ExactRef PointF PtBridge FF XF YF Consistency DC09.
 Import ListNotations.
 Open Scope Z_scope.
 
@@ -52,13 +55,14 @@ Theorem C09_merge_of_repeated_descendants : forall ord, (forall l, Permutation (
 Proof. exact merge_descendants_repeated. Qed.
 Print Assumptions C09_merge_of_repeated_descendants.
 
-(* through the two exported functions: ChangeExtendedSpatialIdsZoom to finer zooms, then MergeExtendedSpatialIds at the ID's own zooms *)
-Theorem C09_zoom_in_then_merge_api : forall i H V, valid i -> eh i <= H <= 35 -> ev i <= V <= 35 ->
+(* through the two exported functions: ChangeExtendedSpatialIdsZoom to finer zooms, then MergeExtendedSpatialIds at the ID's own zooms.
+   Extra hypothesis 2 dh + dv <= 62: the API model computes the merge threshold 4^dh * 2^dv in wrapping int64 like the code *)
+Theorem C09_zoom_in_then_merge_api : forall i H V, valid i -> eh i <= H <= 35 -> ev i <= V <= 35 -> 2 * (H - eh i) + (V - ev i) <= 62 ->
   exists mid, change_ext_api [print_eid i] H V = Ok mid /\ merge_ext_api mid (eh i) (ev i) = Ok [print_eid i].
 Proof. exact zoom_in_then_merge_api. Qed.
 Print Assumptions C09_zoom_in_then_merge_api.
 
-Theorem C09_merge_descendants_api : forall i H V l, valid i -> eh i <= H <= 35 -> ev i <= V <= 35 ->
+Theorem C09_merge_descendants_api : forall i H V l, valid i -> eh i <= H <= 35 -> ev i <= V <= 35 -> 2 * (H - eh i) + (V - ev i) <= 62 ->
   (forall o, In o l <-> In o (change_eids [i] H V)) ->
   merge_ext_api (map print_eid l) (eh i) (ev i) = Ok [print_eid i].
 Proof. exact merge_descendants_api. Qed.
@@ -100,25 +104,27 @@ Theorem C09_y_rows_nested_from_row35 : forall (m_tan m_cos m_log : pfloat -> pfl
 Proof. exact y_nested_from_row35. Qed.
 Print Assumptions C09_y_rows_nested_from_row35.
 
-(* altitude, PARTIAL: every finite |alt| <= 2^40 outside the class alt_underflow at the coarser zoom. Missing: denormal altitudes (D12) *)
+(* altitude, PARTIAL: every finite |alt| <= 2^40 outside the defect class alt_vanishes at the coarser zoom (positive denormal altitudes and
+   negative ones whose quotient does not round to zero ARE covered). Missing: exactly the defect D12 *)
 Theorem C09_f_layers_nested_partial : forall (alt : pfloat) v v', 0 <= v' <= v -> v <= 35 ->
-  ffin alt = true -> (Rabs (fval alt) <= bpow radix2 40)%R -> ~ alt_underflow alt v' ->
+  ffin alt = true -> (Rabs (fval alt) <= bpow radix2 40)%R -> ~ alt_vanishes alt v' ->
   exists f, f_f alt v = Some f /\ f_f alt v' = Some (anc (v - v') f).
 Proof. exact f_nested_partial. Qed.
 Print Assumptions C09_f_layers_nested_partial.
 
 (* REFUTED on the class: alt = -2^-1074 is in layer -1 at vertical zoom 25 and in layer 0 at zoom 24, and the parent of -1 is -1 *)
 Theorem C09_f_layers_underflow_refuted :
-  exists (alt : pfloat) v v', 0 <= v' <= v /\ v <= 35 /\ ffin alt = true /\ (Rabs (fval alt) <= bpow radix2 25)%R /\ alt_underflow alt v' /\
+  exists (alt : pfloat) v v', 0 <= v' <= v /\ v <= 35 /\ ffin alt = true /\ (Rabs (fval alt) <= bpow radix2 25)%R /\ alt_vanishes alt v' /\
     f_f alt v = Some (-1) /\ f_f alt v' = Some 0 /\ anc (v - v') (-1) <> 0 /\ ~ rel1 v (-1) v' 0.
 Proof. exact f_nesting_underflow_refuted. Qed.
 Print Assumptions C09_f_layers_underflow_refuted.
 
-(* the whole point, PARTIAL (guards: pt_dom = finite lon in [-180,180], finite alt in [-2^25,2^25), the libm float m finite in [0,2);
-   altitude outside alt_underflow at the coarser vertical zoom). The ID at the coarser zooms (each axis independently coarser or equal)
+(* the whole point, PARTIAL (guards: pt_dom = finite lon in [-180,180], finite alt in [-2^25,2^25), the libm float m finite in [0,2) — an
+   UNPROVED hypothesis about Go's libm, evaluated on every run-time case; altitude outside alt_vanishes at the coarser vertical zoom).
+   Coordinates that NewPoint accepts but pt_dom excludes (NaN, infinite or huge altitudes) are outside the property's "valid points". The ID at the coarser zooms (each axis independently coarser or equal)
    is the zoom-out of the ID at the finer zooms: index by index, and as the list returned by the zoom change *)
 Theorem C09_point_id_at_coarser_zoom_is_zoom_out_partial : forall (m_tan m_cos m_log : pfloat -> pfloat) p h v h' v',
-  0 <= h' <= h -> h <= 35 -> 0 <= v' <= v -> v <= 35 -> pt_dom m_tan m_cos m_log p -> ~ alt_underflow (palt p) v' ->
+  0 <= h' <= h -> h <= 35 -> 0 <= v' <= v -> v <= 35 -> pt_dom m_tan m_cos m_log p -> ~ alt_vanishes (palt p) v' ->
   exists i i', point_eid m_tan m_cos m_log p h v = Some i /\ point_eid m_tan m_cos m_log p h' v' = Some i' /\ valid i /\ valid i' /\
                eh i = h /\ ev i = v /\ eh i' = h' /\ ev i' = v' /\
                ex i' = anc (h - h') (ex i) /\ ey i' = anc (h - h') (ey i) /\ ef i' = anc (v - v') (ef i) /\
@@ -128,17 +134,24 @@ Print Assumptions C09_point_id_at_coarser_zoom_is_zoom_out_partial.
 
 (* the same through the exported functions *)
 Theorem C09_point_nesting_api_partial : forall (m_tan m_cos m_log : pfloat -> pfloat) p h v h' v',
-  0 <= h' <= h -> h <= 35 -> 0 <= v' <= v -> v <= 35 -> pt_dom m_tan m_cos m_log p -> ~ alt_underflow (palt p) v' ->
+  0 <= h' <= h -> h <= 35 -> 0 <= v' <= v -> v <= 35 -> pt_dom m_tan m_cos m_log p -> ~ alt_vanishes (palt p) v' ->
   exists s s', points_api m_tan m_cos m_log false [p] h v = Ok [s] /\ points_api m_tan m_cos m_log false [p] h' v' = Ok [s'] /\
                change_ext_api [s] h' v' = Ok [s'].
 Proof. exact point_nesting_api_partial. Qed.
 Print Assumptions C09_point_nesting_api_partial.
 
+(* "nested" read on regions of space (Voxel.inR): every point of the finer voxel lies in the coarser voxel — same guards *)
+Theorem C09_point_voxels_nested_regions_partial : forall (m_tan m_cos m_log : pfloat -> pfloat) p h v h' v',
+  0 <= h' <= h -> h <= 35 -> 0 <= v' <= v -> v <= 35 -> pt_dom m_tan m_cos m_log p -> ~ alt_vanishes (palt p) v' ->
+  exists i i', point_eid m_tan m_cos m_log p h v = Some i /\ point_eid m_tan m_cos m_log p h' v' = Some i' /\ forall q, inR i q -> inR i' q.
+Proof. exact point_regions_nested_partial. Qed.
+Print Assumptions C09_point_voxels_nested_regions_partial.
+
 (* the voxels of one point at ANY two zoom pairs (no order between the pairs: crossed orders included) overlap, and the library's
    overlap check answers true on them — PARTIAL with the same guards *)
 Theorem C09_voxels_of_a_point_pairwise_overlap_partial : forall (m_tan m_cos m_log : pfloat -> pfloat) p h1 v1 h2 v2,
   0 <= h1 <= 35 -> 0 <= v1 <= 35 -> 0 <= h2 <= 35 -> 0 <= v2 <= 35 ->
-  pt_dom m_tan m_cos m_log p -> ~ alt_underflow (palt p) (Z.min v1 v2) ->
+  pt_dom m_tan m_cos m_log p -> ~ alt_vanishes (palt p) (Z.min v1 v2) ->
   exists i j, point_eid m_tan m_cos m_log p h1 v1 = Some i /\ point_eid m_tan m_cos m_log p h2 v2 = Some j /\ overlaps i j /\
               overlap_check_api (print_eid i) (print_eid j) = Ok true.
 Proof. exact point_voxels_overlap_partial. Qed.
@@ -146,20 +159,46 @@ Print Assumptions C09_voxels_of_a_point_pairwise_overlap_partial.
 
 (* REFUTED on the class, for every libm: the voxels of (0, 0, -2^-1074 m) at vertical zooms 25 and 24 do not overlap *)
 Theorem C09_point_nesting_underflow_refuted : forall (m_tan m_cos m_log : pfloat -> pfloat),
-  exists p, ffin (plon p) = true /\ ffin (palt p) = true /\ (Rabs (fval (palt p)) <= bpow radix2 25)%R /\ alt_underflow (palt p) 24 /\
+  exists p, ffin (plon p) = true /\ ffin (palt p) = true /\ (Rabs (fval (palt p)) <= bpow radix2 25)%R /\ alt_vanishes (palt p) 24 /\
     forall h i j, point_eid m_tan m_cos m_log p h 25 = Some i -> point_eid m_tan m_cos m_log p h 24 = Some j ->
                   ef i = -1 /\ ef j = 0 /\ ~ overlaps i j.
 Proof. exact point_nesting_underflow_refuted. Qed.
 Print Assumptions C09_point_nesting_underflow_refuted.
 
-(* ================================================================ the run-time checkers mean what they say *)
+(* ================================================================ the defect class is exactly the defect *)
+(* outside the class the model's vertical index is the exact floor — sharper than C01's guard alt_underflow *)
+Theorem C09_f_is_exact_floor_outside_the_defect : forall (alt : pfloat) v, 0 <= v <= 35 -> ffin alt = true ->
+  (Rabs (fval alt) <= bpow radix2 40)%R -> ~ alt_vanishes alt v -> f_f alt v = Some (F_exact v (fval alt)).
+Proof. exact f_f_exact_sharp. Qed.
+Print Assumptions C09_f_is_exact_floor_outside_the_defect.
+(* on the whole class the model answers 0 where the floor is -1 *)
+Theorem C09_defect_class_refuted_everywhere : forall (alt : pfloat) v, 0 <= v <= 35 -> ffin alt = true ->
+  (Rabs (fval alt) <= bpow radix2 40)%R -> alt_vanishes alt v -> f_f alt v = Some 0 /\ F_exact v (fval alt) = -1.
+Proof. exact vanishes_is_the_defect. Qed.
+Print Assumptions C09_defect_class_refuted_everywhere.
+Theorem C09_defect_class_inside_alt_underflow : forall (alt : pfloat) v, alt_vanishes alt v -> alt_underflow alt v.
+Proof. exact vanishes_underflow. Qed.
+Print Assumptions C09_defect_class_inside_alt_underflow.
+Theorem C09_defect_class_decided : forall (alt : pfloat) v, 0 <= v <= 35 -> ffin alt = true -> (Rabs (fval alt) <= bpow radix2 40)%R ->
+  alt_vanishes_b alt v = true <-> alt_vanishes alt v.
+Proof. exact alt_vanishes_b_spec. Qed.
+Print Assumptions C09_defect_class_decided.
+
+(* ================================================================ what the run-time verdicts mean *)
+(* the inner checkers are boolean reflections of their specifications *)
 Theorem C09_checker_nesting_sound : forall h1 v1 h2 v2 id1 id2 chg ovl,
   check_nesting h1 v1 h2 v2 id1 id2 chg ovl = true <->
   exists e1 e2, parse_eid id1 = Some e1 /\ parse_eid id2 = Some e2 /\
-    eh e1 = h1 /\ ev e1 = v1 /\ eh e2 = h2 /\ ev e2 = v2 /\ overlaps e1 e2 /\ In id2 chg /\
-    (h2 <= h1 -> v2 <= v1 -> chg = [id2]) /\ ovl <> Some false.
+    eh e1 = h1 /\ ev e1 = v1 /\ eh e2 = h2 /\ ev e2 = v2 /\ valid e1 /\ valid e2 /\ overlaps e1 e2 /\
+    (NoDup chg /\ forall s, In s chg <-> exists o, s = print_eid o /\ eh o = h2 /\ ev o = v2 /\ exists i, In i [e1] /\ overlaps i o) /\
+    In id2 chg /\ ovl = true.
 Proof. exact check_nesting_sound. Qed.
 Print Assumptions C09_checker_nesting_sound.
+(* ... and for a coarser-or-equal second zoom pair that specification forces the zoom change to be exactly [id2] *)
+Theorem C09_nesting_spec_ordered : forall h1 v1 h2 v2 id1 id2 chg ovl,
+  nesting_spec h1 v1 h2 v2 id1 id2 chg ovl -> h2 <= h1 -> v2 <= v1 -> chg = [id2].
+Proof. exact nesting_spec_ordered. Qed.
+Print Assumptions C09_nesting_spec_ordered.
 
 Theorem C09_checker_in_out_sound : forall id H V size back,
   check_in_out id H V size back = true <->
@@ -174,18 +213,49 @@ Print Assumptions C09_checker_merge_sound.
 
 Theorem C09_checker_ladder_sound : forall zs ids bools,
   check_ladder zs ids bools = true <->
-  exists es, map_opt parse_eid ids = Some es /\ map (fun e => (eh e, ev e)) es = zs /\ ForallOrdPairs overlaps es /\
-             Forall (fun b => b <> Some false) bools.
+  exists es, map_opt parse_eid ids = Some es /\ map (fun e => (eh e, ev e)) es = zs /\ Forall valid es /\ ForallOrdPairs overlaps es /\
+             Forall (fun b => b = true) bools.
 Proof. exact check_ladder_sound. Qed.
 Print Assumptions C09_checker_ladder_sound.
 
+(* the verdict functions of DC09.v themselves: prop = true under class "-" means the documented error on invalid arguments, or the
+   specification on the observed value; every refused / out-of-domain / over-size case is bad_case or class "skipped" *)
+Theorem C09_verdict_nesting : forall oracle p h1 v1 h2 v2 obs,
+  v_prop (d_nesting_core oracle p h1 v1 h2 v2 obs) = true -> v_class (d_nesting_core oracle p h1 v1 h2 v2 obs) = "-"%string ->
+  (zooms_ok [h1; v1; h2; v2] = false /\ is_err obs = true) \/
+  (zooms_ok [h1; v1; h2; v2] = true /\ in_domain_point p = true /\
+   exists o1 o2 ochg lc b, obs = VL [VS o1; VS o2; ochg; VB b] /\ as_LS ochg = Some lc /\ nesting_spec h1 v1 h2 v2 o1 o2 lc b).
+Proof. exact d_nesting_verdict. Qed.
+Print Assumptions C09_verdict_nesting.
+Theorem C09_verdict_in_out : forall id H V obs,
+  v_prop (d_in_out_core id H V obs) = true -> v_class (d_in_out_core id H V obs) = "-"%string ->
+  ((parse_eid id = None \/ (check_zoom H && check_zoom V)%bool = false) /\ is_err obs = true) \/
+  (exists omid oback lm lb, obs = VL [omid; oback] /\ as_LS omid = Some lm /\ as_LS oback = Some lb /\
+                            in_out_spec id H V (Z.of_nat (List.length lm)) lb).
+Proof. exact d_in_out_verdict. Qed.
+Print Assumptions C09_verdict_in_out.
+Theorem C09_verdict_merge : forall id dh dv obs,
+  v_prop (d_merge_desc_core id dh dv obs) = true -> v_class (d_merge_desc_core id dh dv obs) = "-"%string ->
+  (parse_eid id = None /\ is_err obs = true) \/
+  (exists olist omerged ll lm, obs = VL [olist; omerged] /\ as_LS olist = Some ll /\ as_LS omerged = Some lm /\ merge_desc_spec id lm).
+Proof. exact d_merge_desc_verdict. Qed.
+Print Assumptions C09_verdict_merge.
+Theorem C09_verdict_ladder : forall oracle p zs pairs obs,
+  v_prop (d_ladder_core oracle p zs pairs obs) = true -> v_class (d_ladder_core oracle p zs pairs obs) = "-"%string ->
+  (forallb (fun z => (check_zoom (fst z) && check_zoom (snd z))%bool) zs = false /\ is_err obs = true) \/
+  (in_domain_point p = true /\
+   exists oids obools li lb, obs = VL [oids; VL obools] /\ as_LS oids = Some li /\ as_bools obools = Some lb /\
+                             List.length lb = List.length pairs /\ ladder_spec zs li lb).
+Proof. exact d_ladder_verdict. Qed.
+Print Assumptions C09_verdict_ladder.
+
 (* the model's own answers pass the checkers *)
 Theorem C09_model_passes_nesting_checker : forall (t c l : pfloat -> pfloat) p h v h' v',
-  0 <= h' <= h -> h <= 35 -> 0 <= v' <= v -> v <= 35 -> pt_dom t c l p -> ~ alt_underflow (palt p) v' ->
+  0 <= h' <= h -> h <= 35 -> 0 <= v' <= v -> v <= 35 -> pt_dom t c l p -> ~ alt_vanishes (palt p) v' ->
   exists i i', point_eid t c l p h v = Some i /\ point_eid t c l p h' v' = Some i' /\
     change_ext_api [print_eid i] h' v' = Ok [print_eid i'] /\
     overlap_check_api (print_eid i) (print_eid i') = Ok true /\
-    check_nesting h v h' v' (print_eid i) (print_eid i') [print_eid i'] (Some true) = true.
+    check_nesting h v h' v' (print_eid i) (print_eid i') [print_eid i'] true = true.
 Proof. exact model_passes_check_nesting. Qed.
 Print Assumptions C09_model_passes_nesting_checker.
 
@@ -196,16 +266,17 @@ Theorem C09_model_passes_in_out_checker : forall i H V, valid i -> eh i <= H <= 
 Proof. exact model_passes_check_in_out. Qed.
 Print Assumptions C09_model_passes_in_out_checker.
 
-Theorem C09_model_passes_merge_checker : forall i H V l, valid i -> eh i <= H <= 35 -> ev i <= V <= 35 ->
+Theorem C09_model_passes_merge_checker : forall i H V l, valid i -> eh i <= H <= 35 -> ev i <= V <= 35 -> 2 * (H - eh i) + (V - ev i) <= 62 ->
   (forall o, In o l <-> In o (change_eids [i] H V)) ->
   exists merged, merge_ext_api (map print_eid l) (eh i) (ev i) = Ok merged /\ check_merge_desc (print_eid i) merged = true.
 Proof. exact model_passes_check_merge_desc. Qed.
 Print Assumptions C09_model_passes_merge_checker.
 
 (* ================================================================ non-vacuity *)
-(* the guards of the point theorems are satisfiable *)
+(* the guards of the point theorems are satisfiable (with a constant stand-in for libm: tan = 0, cos = 1, log = 0, so m = 1; that Go's
+   libm satisfies the guard on real latitudes is checked at run time, not proved) *)
 Example C09_point_domain_inhabited :
-  exists (t c l : pfloat -> pfloat) p, pt_dom t c l p /\ ~ alt_underflow (palt p) 0.
+  exists (t c l : pfloat -> pfloat) p, pt_dom t c l p /\ ~ alt_vanishes (palt p) 0.
 Proof. exact pt_dom_example. Qed.
 (* a valid ID below ground, zoomed in by (2,3) — 128 IDs — and out again; its descendants at (21,21) merged back *)
 Example C09_in_out_below_ground :
